@@ -242,6 +242,11 @@ Definition py_keywords : list string :=
    "is"; "lambda"; "nonlocal"; "not"; "or"; "pass"; "raise"; "return"; "try"; "while"; "with"; "yield"].
 Definition is_keyword (s : string) : bool := str_in s py_keywords.
 
+(* fix F07d: re.fullmatch(r"arg_\d+", name) on ASCII -- arg_0, arg_1, ... are the keys under which the engine files
+   positional arguments (runtime/engine.py _parse_directive_args / _bind_arguments) *)
+Definition is_positional_marker (s : string) : bool :=
+  startswith s "arg_" && nonempty (drop 4 s) && all_chars is_digit (drop 4 s).
+
 (* the body of `for part in param_parts`; state = (params so far (reversed), seen_optional, names) *)
 Definition ppp_step (st : list param * bool * list string) (part0 : string)
   : pres (list param * bool * list string) :=
@@ -258,11 +263,13 @@ Definition ppp_step (st : list param * bool * list string) (part0 : string)
   | None => if seen_optional then PDiag (DSyntax "params:required-after-optional" 0) else
       if negb (is_identifier pname) then PDiag (DSyntax "params:not-identifier" 0)
       else if is_keyword pname then PDiag (DSyntax "params:keyword" 0)
+      else if is_positional_marker pname then PDiag (DSyntax "params:reserved-name" 0)
       else if str_in pname names then PDiag (DSyntax "params:duplicate" 0)
       else POk (mkParam pname pdef :: acc, seen', pname :: names)
   | Some _ =>
       if negb (is_identifier pname) then PDiag (DSyntax "params:not-identifier" 0)
       else if is_keyword pname then PDiag (DSyntax "params:keyword" 0)
+      else if is_positional_marker pname then PDiag (DSyntax "params:reserved-name" 0)
       else if str_in pname names then PDiag (DSyntax "params:duplicate" 0)
       else POk (mkParam pname pdef :: acc, seen', pname :: names)
   end.
